@@ -1,6 +1,6 @@
 """C07 — expressions evaluate as Ink specifies (dispatch-table clauses only)."""
 from analysis.facts import callee, callee_short
-from analysis.defuse import Tracer, du
+from analysis.defuse import Tracer, du, full_lineage
 from analysis.tables import variant_to_value_table, string_to_variant_table, discr_switches, _follow
 
 
@@ -214,7 +214,7 @@ def run(chk, prog):
         for g_ in prog.with_closures(inc):
             for bb, t in g_.calls():
                 if callee_short(t).endswith('::eq') and len(t['args']) >= 2:
-                    pa, pb = lt.prov(g_, t['args'][0]), lt.prov(g_, t['args'][1])
+                    pa, pb = full_lineage(prog, g_, t['args'][0], _lt=lt), full_lineage(prog, g_, t['args'][1], _lt=lt)
                     for x, y in ((pa, pb), (pb, pa)):
                         if 'via:ListDefinition::get_name' in x and 'via:InkListItem::get_origin_name' in y:
                             cmp_ok = True
@@ -222,7 +222,7 @@ def run(chk, prog):
         for g_ in prog.with_closures(inc):
             for bb, t in g_.calls():
                 if callee_short(t) == 'ListDefinition::get_item_with_value':
-                    rp = lt.prov(g_, t['args'][0])
+                    rp = full_lineage(prog, g_, t['args'][0], _lt=lt)
                     selected = any(a.startswith('via:') and a.rsplit('::', 1)[-1] in ('find', 'position', 'filter')
                                    for a in rp) or 'via:ListDefinitionsOrigin::get_list_definition' in rp
                     sites_.append((g_, bb, selected))
